@@ -127,8 +127,8 @@ class PGPSignature(Armorable, ParentRef, PGPObject):
         A :py:obj:`~datetime.datetime` of when this signature expires, if a signature expiration date is specified.
         Otherwise, ``None``
         """
-        if 'SignatureExpirationTime' in self._signature.subpackets:
-            expd = next(iter(self._signature.subpackets['SignatureExpirationTime'])).expires
+        if self._signature.subpackets['h_SignatureExpirationTime']:
+            expd = next(iter(self._signature.subpackets['h_SignatureExpirationTime'])).expires
             return self.created + expd
         return None
 
@@ -137,8 +137,8 @@ class PGPSignature(Armorable, ParentRef, PGPObject):
         """
         ``False`` if this signature is marked as being not exportable. Otherwise, ``True``.
         """
-        if 'ExportableCertification' in self._signature.subpackets:
-            return bool(next(iter(self._signature.subpackets['ExportableCertification'])))
+        if self._signature.subpackets['h_ExportableCertification']:
+            return bool(next(iter(self._signature.subpackets['h_ExportableCertification'])))
 
         return True
 
@@ -197,8 +197,8 @@ class PGPSignature(Armorable, ParentRef, PGPObject):
 
     @property
     def key_expiration(self):
-        if 'KeyExpirationTime' in self._signature.subpackets:
-            return next(iter(self._signature.subpackets['KeyExpirationTime'])).expires
+        if self._signature.subpackets['h_KeyExpirationTime']:
+            return next(iter(self._signature.subpackets['h_KeyExpirationTime'])).expires
         return None
 
     @property
@@ -253,8 +253,8 @@ class PGPSignature(Armorable, ParentRef, PGPObject):
         """
         ``False`` if this signature is marked as being not revocable. Otherwise, ``True``.
         """
-        if 'Revocable' in self._signature.subpackets:
-            return bool(next(iter(self._signature.subpackets['Revocable'])))
+        if self._signature.subpackets['h_Revocable']:
+            return bool(next(iter(self._signature.subpackets['h_Revocable'])))
         return True
 
     @property
